@@ -30,7 +30,7 @@ def cfgOfJ (j : J) : Cfg :=
     generateSelector := j.getBool "generateSelector",
     parentSelector := selectorOfJ (j.opt "parentSelector"),
     finalize := j.getBool "finalize", customize := j.getBool "customize", ssa := j.getBool "ssa",
-    fieldPaths := (j.getD "fieldPaths").strList }
+    fieldPaths := (j.getD "fieldPaths").strList, related := (j.getArr "related").map childResOfJ }
 
 def parentResOfJ (j : J) : ParentRes :=
   { apiVersion := j.getStr "apiVersion", resource := j.getStr "resource", kind := j.getStr "kind",
@@ -40,7 +40,11 @@ def parentResOfJ (j : J) : ParentRes :=
 def dcfgOfJ (j : J) : DCfg :=
   { name := j.getStr "name", resources := (j.getArr "resources").map parentResOfJ,
     attachments := (j.getArr "attachments").map childResOfJ,
-    finalize := j.getBool "finalize", customize := j.getBool "customize" }
+    finalize := j.getBool "finalize", customize := j.getBool "customize", related := (j.getArr "related").map childResOfJ }
+
+/-- the SSA memo as dumped by the harness: [{key, desired, generation}] -/
+def memoOfJ (j : J) : Memo :=
+  j.items.map (fun e => (e.getStr "key", (e.getD "desired", e.getInt "generation")))
 
 def cacheOfJ (j : J) : Cache :=
   { parents := j.getArr "parents",
